@@ -188,8 +188,8 @@ func TestC10(t *testing.T) {
 		c10Run(t, repo, genC10(rng), shard*1000000+i+1, out)
 	}
 	// layer (b): histories with file rules on real repositories, judged by the declarative
-	// per-path authorization of Spec/C01 (one world case for every ten codec cases)
-	for i := 0; i < (n+9)/10; i++ {
+	// per-path authorization of Spec/C01 (one world case for every five codec cases)
+	for i := 0; i < (n+4)/5; i++ {
 		c10WorldCase(t, shard*1000000+500000+i+1, NewRng(rng.U64()), out)
 	}
 	fsckRepo(t, repo.GetGitDir())
@@ -207,25 +207,40 @@ func c10WorldCase(t *testing.T, id int, r *Rng, out *Out) {
 	p := basePolicy()
 	srcPats := []string{"file:src/*"}
 	srcOwners := []int{1003}
+	family := r.Intn(100)
 	switch x := r.Intn(100); {
-	case x < 20: // one rule for several directories: the paths of one commit share a verifier
+	case x < 20 || family < 20: // one rule for several directories: the paths of one commit share a verifier
 		srcPats = []string{"file:src/*", "file:docs/*"}
-	case x < 35:
-		srcPats, srcOwners = []string{"file:*"}, []int{1002, 1003}
+		if r.Bool() {
+			srcPats, srcOwners = []string{"file:*"}, []int{1002, 1003}
+		}
 	}
-	if !r.Chance(12) { // sometimes no delegation rule protects any file (global rules may)
+	noFileRule := r.Chance(12) || (family >= 20 && family < 35) // no delegation rule protects any file (global rules may)
+	if !noFileRule {
 		p.Files[0].Rules = append(p.Files[0].Rules, RuleSpec{Name: "protect-src", Patterns: srcPats, Principals: srcOwners, Threshold: 1})
 	}
-	if r.Chance(40) {
+	if r.Chance(40) && !noFileRule {
 		owner := []int{1002, 1003}[r.Intn(2)]
 		p.Files[0].Rules = append(p.Files[0].Rules, RuleSpec{Name: "protect-lib", Patterns: []string{"file:lib/*"}, Principals: []int{owner}, Threshold: 1})
 	}
-	if r.Chance(50) {
+	if family < 35 {
+		// targeted families: a global threshold rule on src/* next to a rule shared by several
+		// directories (family < 20), or with no delegation file rule at all (20 <= family < 35)
+		thr := 1 + r.Intn(2)
+		if family < 20 {
+			thr = 2 // more than one signature can supply
+		}
+		p.Root.GlobalRules = []GlobalRuleSpec{{Name: "g-src", Kind: "threshold", Patterns: []string{"file:src/*"}, Threshold: thr}}
+	} else if r.Chance(50) {
 		switch r.Intn(3) {
 		case 0:
 			p.Root.GlobalRules = []GlobalRuleSpec{{Name: "unrelated", Kind: "threshold", Patterns: []string{"git:refs/heads/unrelated"}, Threshold: 1}}
 		case 1:
-			p.Root.GlobalRules = []GlobalRuleSpec{{Name: "g-src", Kind: "threshold", Patterns: []string{"file:src/*"}, Threshold: 1 + r.Intn(2)}}
+			thr := 1 + r.Intn(2)
+		if family < 20 {
+			thr = 2 // more than one signature can supply
+		}
+		p.Root.GlobalRules = []GlobalRuleSpec{{Name: "g-src", Kind: "threshold", Patterns: []string{"file:src/*"}, Threshold: thr}}
 		default:
 			p.Root.GlobalRules = []GlobalRuleSpec{{Name: "g-bfp", Kind: "block-force-pushes", Patterns: []string{"git:" + main}}}
 		}
@@ -237,8 +252,14 @@ func c10WorldCase(t *testing.T, id int, r *Rng, out *Out) {
 	var parent *int
 	touch := func() {
 		k := 1 + r.Intn(3)
+		if family < 20 && k < 2 {
+			k = 2
+		}
 		for j := 0; j < k; j++ {
 			path := pool[r.Intn(len(pool))]
+			if family < 35 && j < 2 && (family < 20 || r.Chance(70)) {
+				path = []string{"docs/a", "src/a.go"}[j] // an unmatched path first, then one the global rule matches
+			}
 			blob++
 			found := false
 			for i := range files {
